@@ -507,6 +507,53 @@ fn barrel_mesh_project(seed: u64, rng: &mut Rng) -> Project {
     }
 }
 
+/// Some forty to eighty named types in a handful of files, among them types of the same name in
+/// different files (`Item` in a.ts, b.ts and c.ts): more than any small-input fast path covers,
+/// and name clashes whose printed names and order must not depend on the process.
+fn wide_project(seed: u64, rng: &mut Rng) -> Project {
+    let n_files = rng.range(3, 4);
+    let per = rng.range(12, 22);
+    let mut files: BTreeMap<String, String> = BTreeMap::new();
+    let mut imports = String::new();
+    let mut fields = vec![];
+    let stems = ["a", "b", "c", "d"];
+    for k in 0..n_files {
+        let st = stems[k];
+        let up = st.to_uppercase();
+        let mut src = String::new();
+        src.push_str(&format!("/** the Item of {} */\nexport type Item = {{ in_{}: string; n: {} }};\n/** the Meta of {} */\nexport type Meta = {{ of: \"{}\"; items: Item[] }};\n", st, st, k, st, st));
+        imports.push_str(&format!("import {{ Item as {}Item, Meta as {}Meta }} from \"./{}\";\n", up, up, st));
+        fields.push(format!("{}_item: {}Item", st, up));
+        fields.push(format!("{}_meta?: {}Meta", st, up));
+        let mut names = vec![];
+        for i in 0..per {
+            let body = match rng.below(4) {
+                0 => format!("{{ v{}: string; item?: Item }}", i),
+                1 if i > 0 => format!("{{ v{}: number; prev: {}{} | null }}", i, up, i - 1),
+                2 => format!("{{ kind: \"{}{}\"; meta: Meta }}", st, i),
+                _ => format!("{{ v{}: boolean[] }}", i),
+            };
+            src.push_str(&format!("/** {} number {} */\nexport type {}{} = {};\n", st, i, up, i, body));
+            names.push(format!("{}{}", up, i));
+        }
+        imports.push_str(&format!("import {{ {} }} from \"./{}\";\n", names.join(", "), st));
+        for n in &names {
+            fields.push(format!("f_{}: {}", n.to_lowercase(), n));
+        }
+        files.insert(format!("/p/{}.ts", st), src);
+    }
+    files.insert("/p/entry.ts".into(), format!("import parse from \"./gen/parser\";\n{}/** everything */\nexport type All = {{ {} }};\nparse.buildParsers<{{ All: All; AItem: AItem; BItem: BItem; CMeta: CMeta }}>();\n", imports, fields.join("; ")));
+    Project {
+        id: format!("wide_{:08x}", (seed & 0xffff_ffff) as u32),
+        origin: "verif/sim/src/gen.rs wide_project".into(),
+        origin_kind: "synthetic".into(),
+        entry: "/p/entry.ts".into(),
+        settings: Settings { string_formats: vec![], number_formats: vec![] },
+        module: "esm".into(),
+        files,
+    }
+}
+
 /// More modules than any cache is likely to be sized for (550-800 small files in short import
 /// chains, every type documented, reached through one wide entry type; sometimes one of the late
 /// modules has an error): what is emitted and reported must not depend on which of them a build
@@ -616,6 +663,9 @@ pub fn synthetic_project(seed: u64) -> Project {
     }
     if rng.chance(1, 60) {
         return many_modules_project(seed, &mut rng);
+    }
+    if rng.chance(1, 25) {
+        return wide_project(seed, &mut rng);
     }
     let n_types = rng.range(3, 8);
     let n_files = rng.range(1, 3);
